@@ -3,6 +3,7 @@ package main
 import (
 	"fmt"
 	"go/types"
+	"regexp"
 	"strings"
 
 	"golang.org/x/tools/go/ssa"
@@ -57,6 +58,14 @@ func (tr *Tr) evalCall(env *CEnv, x *CCall) (Value, types.Type) {
 			k := tr.evalInt(env, x.Args[1])
 			et := t.Underlying().(*types.Slice).Elem()
 			return Sc{T: tr.sumSize(env.st, et, sl, k)}, nil
+		case "acntge", "acntgt":
+			v, t := tr.evalC(env, x.Args[0])
+			sl := tr.asSl(tr.rval(env, v, t))
+			val := tr.evalInt(env, x.Args[1])
+			et := t.Underlying().(*types.Slice).Elem()
+			h := tr.heapVar(env.st, elemPrefix(et), arr2(sortInt))
+			tr.arrayCountAxioms()
+			return Sc{T: fmt.Sprintf("(|%s| %s %s %s %s)", id.Name, sSel(h, sl.Arr), sl.Off, sAdd(sl.Off, sl.Len), val)}, nil
 		case "psize":
 			v, t := tr.evalC(env, x.Args[0])
 			return Sc{T: tr.protoSize(tr.asSc(tr.rval(env, v, t), t).T)}, nil
@@ -104,6 +113,9 @@ func (tr *Tr) evalCall(env *CEnv, x *CCall) (Value, types.Type) {
 			iv := tr.asIf(tr.rval(env, v, t))
 			name := x.Args[1].(*CStr).Val
 			return boolV(sEq(iv.Tag, fmt.Sprint(tr.g.typeTagByName(name)))), bt
+		case "ifacetag":
+			v, t := tr.evalC(env, x.Args[0])
+			return Sc{T: tr.asIf(tr.rval(env, v, t)).Tag}, nil
 		case "ifaceval":
 			v, t := tr.evalC(env, x.Args[0])
 			iv := tr.asIf(tr.rval(env, v, t))
@@ -298,6 +310,7 @@ func (tr *Tr) evalSpec(env *CEnv, sd *SpecDef, argEs []CExpr) (Value, types.Type
 	if tr.lemmaDepth > 40 {
 		panic(subsetErr("spec recursion too deep (recursive spec?) at " + sd.Name))
 	}
+	var subst [][2]string
 	for i, a := range argEs {
 		v, t := tr.evalC(env, a)
 		pt := tr.resolveCType(penv, sd.Params[i].Typ)
@@ -311,9 +324,20 @@ func (tr *Tr) evalSpec(env *CEnv, sd *SpecDef, argEs []CExpr) (Value, types.Type
 			}
 			t = pt
 		}
+		// compound scalar arguments are passed as placeholders and substituted back afterwards, so that counting
+		// predicates inside the spec body get a canonical shape (see cntSym)
+		if sc, ok := v.(Sc); ok && strings.HasPrefix(sc.T, "(") {
+			tr.fresh++
+			ph := smtName(fmt.Sprintf("%s?%d", sd.Params[i].Name, tr.fresh))
+			subst = append(subst, [2]string{ph, sc.T})
+			v = Sc{T: ph, Bool: sc.Bool}
+		}
 		penv.vars[sd.Params[i].Name] = EV{V: v, T: t}
 	}
 	v, t := tr.evalC(penv, sd.Body)
+	for k := len(subst) - 1; k >= 0; k-- {
+		v = substValue(v, subst[k][0], subst[k][1])
+	}
 	if sd.Ret.Name != "" {
 		rt := tr.resolveCType(penv, sd.Ret)
 		if !(sd.Ret.Name == "int" && !sd.Ret.Ptr && !sd.Ret.Slice) {
@@ -360,16 +384,92 @@ func (tr *Tr) evalCnt(env *CEnv, x *CCall) Value {
 	return Sc{T: tr.cntSym(dom, n, body)}
 }
 
+var boundVarRe = regexp.MustCompile(`\|[A-Za-z_0-9]+\?[0-9]+\|`)
+
+// cntParams lists, in order of first occurrence, the parameters of a counting predicate: quantifier-bound variables /
+// spec placeholders (contain '?') and declared scalar constants. Arrays and function symbols stay part of the key.
+type cntParam struct {
+	tok   string
+	bound bool
+	sort  string
+}
+
+var quotedSymRe = regexp.MustCompile(`\|[^|]+\|`)
+
+func (tr *Tr) cntParams(terms ...string) []cntParam {
+	seen := map[string]bool{}
+	var out []cntParam
+	for _, t := range terms {
+		for _, m := range quotedSymRe.FindAllString(t, -1) {
+			if m == cntBound || seen[m] {
+				continue
+			}
+			seen[m] = true
+			if strings.Contains(m, "?") {
+				out = append(out, cntParam{m, true, "Int"})
+				continue
+			}
+			switch tr.sc.sigs[m] {
+			case "() Int":
+				out = append(out, cntParam{m, false, "Int"})
+			case "() Bool":
+				out = append(out, cntParam{m, false, "Bool"})
+			}
+		}
+	}
+	return out
+}
+
+func boundVarsOf(terms ...string) []string {
+	seen := map[string]bool{}
+	var out []string
+	for _, t := range terms {
+		for _, m := range boundVarRe.FindAllString(t, -1) {
+			if m != cntBound && !seen[m] {
+				seen[m] = true
+				out = append(out, m)
+			}
+		}
+	}
+	return out
+}
+
+func canon(s string, ps []cntParam) string {
+	for i, p := range ps {
+		s = strings.ReplaceAll(s, p.tok, fmt.Sprintf("|bv?%d|", i))
+	}
+	return s
+}
+
+// cntSym returns the term for the number of keys k in dom with body(k): an application of an uninterpreted
+// function (one per predicate shape) to the predicate's parameters.
 func (tr *Tr) cntSym(dom, n, body string) string {
-	key := dom + "|" + body
-	if s, ok := tr.cntSyms[key]; ok {
+	ps := tr.cntParams(dom, body)
+	ckey := canon(dom+"|"+body, ps)
+	s, ok := tr.cntSyms[ckey]
+	if !ok {
+		tr.fresh++
+		s = smtName(fmt.Sprintf("cnt!%d", tr.fresh))
+		sig := "("
+		for _, p := range ps {
+			sig += p.sort + " "
+		}
+		tr.sc.declare(s, strings.TrimSpace(sig)+") Int")
+		tr.cntSyms[ckey] = s
+		tr.assumptions["A-count: finite counts are independent of the enumeration order (engine axiom)"] = true
+	}
+	if len(ps) == 0 {
 		return s
 	}
-	s := tr.freshSym("cnt", false)
-	tr.cntSyms[key] = s
-	tr.sc.fact(fmt.Sprintf("(and (<= 0 %s) (<= %s %s))", s, s, n))
-	tr.assumptions["A-count: finite counts are independent of the enumeration order (engine axiom)"] = true
-	return s
+	var as []string
+	for _, p := range ps {
+		as = append(as, p.tok)
+	}
+	app := "(" + s + " " + strings.Join(as, " ") + ")"
+	if len(boundVarsOf(app)) == 0 {
+		tr.sc.fact(fmt.Sprintf("(and (<= 0 %s) (<= %s %s))", app, app, n))
+	}
+	return app
 }
 
 // evalCntSoFar: cntsofar(k :: P(k)) inside an invariant of a range-over-map loop: number of already visited keys with P.
@@ -383,20 +483,72 @@ func (tr *Tr) evalCntSoFar(env *CEnv, x *CCall) Value {
 		panic(subsetErr("cntsofar(k :: P) expected"))
 	}
 	body := tr.evalBool(env.with(lam.Var, EV{V: Sc{T: cntBound}, T: e.mtyp.Key()}), lam.Body)
+	if strings.Contains(e.dom, "?") {
+		panic(subsetErr("cntsofar over a map that depends on a bound variable"))
+	}
 	total := tr.cntSym(e.dom, e.n, body)
-	pcKey := fmt.Sprintf("pc|%d|%s", e.id, body)
+	ps := tr.cntParams(e.dom, body)
+	pcKey := fmt.Sprintf("pc|%d|%s", e.id, canon(body, ps))
 	pc, ok := tr.cntSyms[pcKey]
+	var qv string
+	var args []string
+	for _, p := range ps {
+		args = append(args, p.tok)
+		if p.bound {
+			qv += " (" + p.tok + " " + p.sort + ")"
+		}
+	}
+	pcAt := func(i string) string { return "(" + pc + " " + strings.TrimSpace(i+" "+strings.Join(args, " ")) + ")" }
 	if !ok {
 		tr.fresh++
 		pc = smtName(fmt.Sprintf("pc!%d!%d", e.id, tr.fresh))
 		tr.cntSyms[pcKey] = pc
-		tr.sc.declare(pc, "(Int) Int")
+		sig := "(Int"
+		for _, p := range ps {
+			sig += " " + p.sort
+		}
+		tr.sc.declare(pc, sig+") Int")
 		at := func(i string) string { return strings.ReplaceAll(body, cntBound, "("+e.pick+" "+i+")") }
-		tr.sc.fact(fmt.Sprintf("(= (%s 0) 0)", pc))
-		tr.sc.fact(fmt.Sprintf("(forall ((i Int)) (! (=> (> i 0) (= (%s i) (+ (%s (- i 1)) (ite %s 1 0)))) :pattern ((%s i))))", pc, pc, at("(- i 1)"), pc))
+		wrap := func(f string) string {
+			if qv == "" {
+				return f
+			}
+			return "(forall (" + strings.TrimSpace(qv) + ") " + f + ")"
+		}
+		// recursive definition of the partial count along this enumeration (bound parameters quantified, constants fixed)
+		tr.sc.fact(wrap(fmt.Sprintf("(= %s 0)", pcAt("0"))))
+		tr.sc.fact(fmt.Sprintf("(forall ((i Int)%s) (! (=> (> i 0) (= %s (+ %s (ite %s 1 0)))) :pattern (%s)))", qv, pcAt("i"), pcAt("(- i 1)"), at("(- i 1)"), pcAt("i")))
+		// derived by induction from the recursive definition (not proved in SMT): 0 <= pc(i) <= i
+		tr.sc.fact(fmt.Sprintf("(forall ((i Int)%s) (! (=> (>= i 0) (and (<= 0 %s) (<= %s i))) :pattern (%s)))", qv, pcAt("i"), pcAt("i"), pcAt("i")))
 		// A-count: the count along this enumeration, taken to the end, is the count of the set
-		tr.sc.fact(fmt.Sprintf("(= (%s %s) %s)", pc, e.n, total))
+		if qv == "" {
+			tr.sc.fact(fmt.Sprintf("(= %s %s)", pcAt(e.n), total))
+		} else {
+			tr.sc.fact(fmt.Sprintf("(forall (%s) (! (= %s %s) :pattern (%s) :pattern (%s)))", strings.TrimSpace(qv), pcAt(e.n), total, pcAt(e.n), total))
+		}
 	}
 	it := env.st.vars[e.counter].(Sc).T
-	return Sc{T: "(" + pc + " " + it + ")"}
+	return Sc{T: pcAt(it)}
+}
+
+func substValue(v Value, from, to string) Value {
+	r := func(s string) string { return strings.ReplaceAll(s, from, to) }
+	switch x := v.(type) {
+	case Sc:
+		return Sc{T: r(x.T), Bool: x.Bool}
+	case Sl:
+		return Sl{r(x.Arr), r(x.Off), r(x.Len), r(x.Cap)}
+	case If:
+		return If{r(x.Tag), r(x.Val)}
+	case St:
+		out := St{F: make([]Value, len(x.F))}
+		for i := range x.F {
+			out.F[i] = substValue(x.F[i], from, to)
+		}
+		return out
+	case LocV:
+		x.L.Ref, x.L.Idx = r(x.L.Ref), r(x.L.Idx)
+		return x
+	}
+	return v
 }
